@@ -81,7 +81,24 @@ def inventory():
         for node in tree.body:
             if isinstance(node, ast.FunctionDef):
                 _defaults(found, rel, node.name, node, mutable)
+        # calls that change interpreter- / process-wide settings: the second analysis of a process meets what the first one set
+        # (some of them can be made only once per process, e.g. multiprocessing.set_start_method)
+        for node in ast.walk(tree):
+            if isinstance(node, ast.Call):
+                nm = ast.unparse(node.func)
+                if nm.split(".")[-1] in PROCESS_WIDE_SETTERS or nm in PROCESS_WIDE_SETTERS:
+                    found[(rel, "process-wide-setter", nm)] = node.lineno
+            if isinstance(node, (ast.Assign, ast.AugAssign, ast.Delete)):
+                for t in (node.targets if isinstance(node, (ast.Assign, ast.Delete)) else [node.target]):
+                    tt = ast.unparse(t)
+                    if tt.startswith(("os.environ", "sys.path", "sys.modules", "sys.argv")):
+                        found[(rel, "process-wide-setter", tt.split("[")[0])] = node.lineno
     return found
+
+
+PROCESS_WIDE_SETTERS = {"set_start_method", "setrecursionlimit", "setswitchinterval", "setlocale", "chdir", "umask", "putenv", "unsetenv", "seed",
+                        "simplefilter", "filterwarnings", "resetwarnings", "setdefaulttimeout", "set_forkserver_preload", "install_opener",
+                        "setprofile", "settrace", "setcheckinterval", "nice", "setpriority", "register_at_fork"}
 
 
 def _defaults(found, rel, qn, fn, mutable):
